@@ -2159,5 +2159,7 @@ func TestVerifC04(t *testing.T) {
 	// accumulation: many calls whose works stay parked past their deadlines (many_test.go)
 	kit.Run(t, "C04", "fx-many", kit.N(24, 240), fxManyCase)
 	kit.Run(t, "C04", "rest-many", kit.N(16, 160), restManyCase)
+	// hostile use of the ResponseWriter behind TimeoutHandler -> RecoverHandler (hostile_test.go)
+	kit.Run(t, "C04", "rest-hostile", kit.N(240, 3000), restHostileCase)
 	kit.End()
 }
